@@ -24,8 +24,11 @@ from vinegar.tftp.server import TftpError
 from vinegar.tftp.protocol import ErrorCode as TftpErrorCode
 from vinegar.utils.socket import contains_ip_address
 
-logging.getLogger("vinegar").setLevel(logging.CRITICAL)
-logging.getLogger(F.__name__).setLevel(logging.CRITICAL)
+_VLOG = logging.getLogger("vinegar")
+_VLOG.addHandler(logging.NullHandler())
+_VLOG.propagate = False                      # records are produced (level is a case dimension) but go nowhere
+_VLOG.setLevel(logging.CRITICAL)
+LOGLEVELS = [logging.CRITICAL, logging.WARNING, logging.INFO, logging.DEBUG]
 
 KIND = {"contains": 0, "http": 1, "tftp": 1, "update": 2}
 ACT = {"error": 0, "ignore": 1, "warn": 2}
@@ -336,6 +339,8 @@ class C05(Check):
              "fs": "content", "ref": None, "method": None, "action": "set_value", "bad_body": False,
              "store_fault": False, "sysid": "sys1", "direct": False}
         c.update(kw)
+        self._n = getattr(self, "_n", 0) + 1
+        c.setdefault("loglevel", LOGLEVELS[self._n % 4])     # the handlers must not behave differently when they log
         return c
 
     # ------------------------------------------------------------------ generators
@@ -730,11 +735,15 @@ class C05(Check):
             try:
                 r = contains_ip_address(c["entries"], c["client"], True, c["raise"])
             except ValueError:
-                return (2, 0)
+                return (2, 0, 0)
             except Exception:   # noqa: BLE001
-                return (3, 0)
-            return (1 if r is True else 0 if r is False else 3, 0)
+                return (3, 0, 0)
+            return (1 if r is True else 0 if r is False else 3, 0, 0)
         w = self.ensure_world()
+        lvl = c.get("loglevel", logging.CRITICAL)
+        _VLOG.setLevel(lvl)
+        logging.getLogger(F.__name__).setLevel(lvl)
+        logging.getLogger(U.__name__).setLevel(lvl)
         if c["kind"] == "hist":
             return self.run_history(w, c)
         ds = DS(c["find"], c["getd"], c["sysid"])
@@ -747,7 +756,7 @@ class C05(Check):
                 h.close()
         made = self.make_file(w, c, ds)
         if made is None:
-            return (9, 0)
+            return (9, 0, 0)
         return self.file_request(w, c["kind"], made, c["client"], c["method"])
 
     # one long-lived handler object, a sequence of requests (different systems / clients), with external
@@ -767,7 +776,7 @@ class C05(Check):
             return out
         made = self.make_file(w, c, ds, kind=c["hkind"])
         if made is None:
-            return [(9, 0)] * len(c["steps"])
+            return [(9, 0, 0)] * len(c["steps"])
         for st in c["steps"]:
             ds.find, ds.getd, ds.sys = st["find"], st["getd"], st["sys"]
             out.append(self.file_request(w, c["hkind"], made, st["client"], st.get("method")))
@@ -811,6 +820,7 @@ class C05(Check):
     def file_request(self, w, kind, made, client, method=None):
         h, uri, ctx = made
         w.opens = 0
+        detail = 0            # does the reply carry anything beyond its code (message text, headers, body)?
         try:
             if kind == "http":
                 ri = HttpRequestInfo(client_address=(client, 4711), headers=http.client.HTTPMessage(),
@@ -824,6 +834,8 @@ class C05(Check):
                         code = 8
                 elif code == 0 and (method or "GET") != "HEAD":
                     code = 8                       # 200 without a body is only right for HEAD
+                if code != 0 and (headers is not None or body is not None):
+                    detail = 1
             else:
                 try:
                     f = h.handle(uri, (client, 4711), ("192.0.2.1", 69), ctx)
@@ -832,9 +844,11 @@ class C05(Check):
                     code = 0 if data == b"secret content\n" else 8
                 except TftpError as te:
                     code = {TftpErrorCode.FILE_NOT_FOUND: 1, TftpErrorCode.ACCESS_VIOLATION: 2}.get(te.error_code, 3)
+                    if te.message or te.args:      # text that the server would put into the ERROR packet
+                        detail = 1
         except Exception:   # noqa: BLE001 - anything else is the internal-error path
             code = 3
-        return (code, w.opens)
+        return (code, w.opens, detail)
 
     def make_update(self, w, c, ds):
         w.counter += 1
@@ -874,16 +888,22 @@ class C05(Check):
             hdr["Content-Length"] = str(len(body))
         ri = HttpRequestInfo(client_address=(client, 4711), headers=hdr, method=method or "POST",
                              server_address=("192.0.2.1", 80), uri=uri)
+        detail = 0
         try:
             status, headers, rbody = h.handle(ri, io.BytesIO(body), ctx)
             code = {200: 4, 403: 2, 400: 5, 405: 6}.get(int(status), 3)
+            if code == 4:
+                if rbody is None or rbody.read() != b"success\n" or dict(headers or {}) != {"Content-Type": "text/plain; charset=UTF-8"}:
+                    detail = 1
+            elif headers is not None or rbody is not None:
+                detail = 1
         except Exception:   # noqa: BLE001
             code = 3
         after = w.snapshot()                      # the whole database, read back through a second connection
         changed = 0 if before == after else 1
         if code == 4 and action == "set_text_value_from_request_body" and body.decode() not in repr(after):
             changed = 9                           # granted but the value is not in the database
-        return (code, changed)
+        return (code, changed, detail)
 
     # ------------------------------------------------------------------ protocol
     def struct(self, c, obs):
@@ -901,7 +921,7 @@ class C05(Check):
         return [KIND[c["kind"]], c["raise"], ents, S(c["client"]), c["key"], ACT[c["act"]],
                 0 if c["nores"] == "not_found" else 1, c["template"], c["lookup"], FIND[c["find"]],
                 getd_sx(g), FS[c["fs"]], self.method_ok(c), bool(c["bad_body"]) and c["action"] in BODY_ACTIONS,
-                c["store_fault"], t4, t6, ref, [obs[0], obs[1]]]
+                c["store_fault"], t4, t6, ref, [obs[0], obs[1], obs[2]]]
 
     @staticmethod
     def method_ok(c):
@@ -928,8 +948,8 @@ class C05(Check):
 
     def canon(self, obs):
         if isinstance(obs, list):
-            return [[o[0], o[1]] for o in obs]
-        return [obs[0], obs[1]]
+            return [[o[0], o[1], o[2]] for o in obs]
+        return [obs[0], obs[1], obs[2]]
 
     def nontrivial(self, c, obs):
         if c["kind"] == "hist":
@@ -953,6 +973,108 @@ class C05(Check):
             yield c2
 
     # ------------------------------------------------------------------ hash-ordered collections with ill-typed entries
+    # ------------------------------------------------------------------ through the real servers
+    def wire_checks(self, w, report):
+        """What an unauthorised client RECEIVES (every byte of the TFTP ERROR packet / of the HTTP reply except the
+        Date header) through a real TftpServer / HttpServer on the loopback interface must be the same whether the
+        probed name resolves to a system with addresses, to one without, to none, and whether the file exists."""
+        import time
+        from vinegar.tftp import server as TS
+        from vinegar.http import server as HS
+
+        class MapDS:
+            def find_system(self, key, value):
+                return {"known": "db01.example.com", "nodata": "db02.example.com"}.get(value)
+
+            def get_data(self, system_id, preset, version):
+                return ({"net": {"ip": ["192.168.77.0/24"]}} if system_id.startswith("db01") else {}), "v"
+
+        def cfg(allowed, nores, key=True):
+            c = {"request_path": "/f/...", "root_dir": w.dir, "lookup_key": "net:mac", "lookup_no_result_action": nores,
+                 "client_address_list": allowed}
+            if key:
+                c["client_address_key"] = "net:ip"
+            return c
+        paths = [f"/f/{v}/{f}" for v in ("known", "nodata", "unknown") for f in ("file.txt", "nope.txt", "adir")]
+        n = 0
+        failing = report.setdefault("extra_failing", [])
+        for nores in ("not_found", "continue"):
+            for key in (True, False):
+                # ---- TFTP
+                for allowed, expect_same in ((["192.168.77.129"], True), (["127.0.0.1", "::ffff:127.0.0.1"], False)):
+                    h = F.TftpFileRequestHandler(cfg(allowed, nores, key))
+                    h.set_data_source(MapDS())
+                    srv = TS.TftpServer([h], "::", 0, default_timeout=1.0, max_retries=0)   # dual stack: the client is ::ffff:127.0.0.1
+                    srv.start()
+                    try:
+                        port = srv._socket.getsockname()[1]
+                        replies = {}
+                        for pth in paths:
+                            sk = socket.socket(socket.AF_INET, socket.SOCK_DGRAM)
+                            sk.settimeout(2.0)
+                            try:
+                                sk.sendto(b"\x00\x01" + pth.encode() + b"\x00octet\x00", ("127.0.0.1", port))
+                                data, peer = sk.recvfrom(65536)
+                                if data[:2] == b"\x00\x03":          # DATA: acknowledge so that the transfer ends
+                                    sk.sendto(b"\x00\x04" + data[2:4], peer)
+                            except socket.timeout:
+                                data = b"<no reply within 2 s>"
+                            finally:
+                                sk.close()
+                            replies[pth] = data
+                            n += 1
+                        if expect_same and len(set(replies.values())) != 1:
+                            failing.append(({"_extra": True, "what": "TFTP ERROR packets for an unauthorised client differ",
+                                             "lookup_no_result_action": nores, "client_address_key": key,
+                                             "replies": {k: v.hex() for k, v in replies.items()}},
+                                            ["no_leak_reply_detail"], sorted({v.hex() for v in replies.values()}), "one reply"))
+                        if expect_same and any(v[:4] != b"\x00\x05\x00\x02" for v in replies.values()):
+                            failing.append(({"_extra": True, "what": "unauthorised TFTP client does not get ACCESS_VIOLATION",
+                                             "replies": {k: v.hex() for k, v in replies.items()}}, ["fail_closed"],
+                                            sorted({v.hex()[:16] for v in replies.values()}), "0005 0002"))
+                        if not expect_same and replies["/f/known/file.txt"][:4] != b"\x00\x03\x00\x01":
+                            failing.append(({"_extra": True, "what": "authorised TFTP client is not served",
+                                             "reply": replies["/f/known/file.txt"].hex()}, ["ipaddress_decision_allows"],
+                                            replies["/f/known/file.txt"].hex()[:16], "DATA 1"))
+                    finally:
+                        srv.stop()
+                # ---- HTTP
+                for allowed, expect_same in ((["192.168.77.129"], True), (["127.0.0.1", "::ffff:127.0.0.1"], False)):
+                    h = F.HttpFileRequestHandler(cfg(allowed, nores, key))
+                    h.set_data_source(MapDS())
+                    srv = HS.HttpServer([h], "::", 0)
+                    srv.start()
+                    try:
+                        port = srv._server.socket.getsockname()[1]
+                        replies = {}
+                        for pth in paths:
+                            try:
+                                con = http.client.HTTPConnection("127.0.0.1", port, timeout=3.0)
+                                con.request("GET", pth)
+                                r = con.getresponse()
+                                body = r.read()
+                                hdrs = sorted((k.lower(), v) for k, v in r.getheaders() if k.lower() != "date")
+                                replies[pth] = repr((r.status, r.reason, hdrs, body))
+                                con.close()
+                            except Exception as e:   # noqa: BLE001
+                                replies[pth] = "<" + type(e).__name__ + ">"
+                            n += 1
+                        if expect_same and len(set(replies.values())) != 1:
+                            failing.append(({"_extra": True, "what": "HTTP replies for an unauthorised client differ",
+                                             "lookup_no_result_action": nores, "client_address_key": key, "replies": replies},
+                                            ["no_leak_reply_detail"], sorted(set(replies.values())), "one reply"))
+                        if expect_same and any(not v.startswith("(403,") for v in replies.values()):
+                            failing.append(({"_extra": True, "what": "unauthorised HTTP client does not get 403", "replies": replies},
+                                            ["fail_closed"], sorted(set(replies.values())), "403"))
+                        if not expect_same and not replies["/f/known/file.txt"].startswith("(200,"):
+                            failing.append(({"_extra": True, "what": "authorised HTTP client is not served",
+                                             "reply": replies["/f/known/file.txt"]}, ["ipaddress_decision_allows"],
+                                            replies["/f/known/file.txt"], "200"))
+                    finally:
+                        srv.stop()
+        report["extra"]["wire_replies_compared"] = n
+        report["extra"]["cases_outside_theorem_hypotheses"] = report["extra"].get("cases_outside_theorem_hypotheses", 0) + n
+
     def extra_checks(self, tier, rng, report):
         report["hist"] = dict(self._hist)
         n = 0
@@ -978,7 +1100,7 @@ class C05(Check):
                         c = self.mk(kind, "union-illtyped", key=True, entries=good, getd=("val", [bad, "172.16.0.0/12"]),
                                     client=client)
                         spec2 = ref_member(good + ["172.16.0.0/12"], client)
-                        code, cnt = self.impl(c)
+                        code, cnt, _det = self.impl(c)
                         n += 1
                         served = code in (0, 1, 4)
                         if (served and not spec2) or (not spec2 and cnt != 0) or (code == 2 and spec2):
@@ -987,6 +1109,7 @@ class C05(Check):
                                  ["fail_closed" if served else "deny_before_change" if cnt else "malformed_never_widens"],
                                  [code, cnt], [1 if spec2 else 0]))
         report["extra"]["illtyped_hash_order_checks"] = n
+        self.wire_checks(w, report)
         # these are judged by the tolerant rule only; the model (and so C05_covered_cases) is not involved
         report["extra"]["cases_outside_theorem_hypotheses"] = \
             report["extra"].get("cases_outside_theorem_hypotheses", 0) + n
